@@ -1,10 +1,7 @@
 package c16
 
 import (
-	"bytes"
 	"fmt"
-	"net/http"
-	"net/http/httptest"
 	"os"
 	"testing"
 	"time"
@@ -93,36 +90,28 @@ func TestFixedProbes(t *testing.T) {
 			}
 		}
 	}
+	// listed findings: re-observed every run (see KNOWN.txt / NOTES.md)
+	var known []Script
+	for _, name := range []string{"none", "br"} {
+		known = append(known, Script{Limit: 1000, Enabled: []string{"", name, "gzip"}, Reqs: []Req{{Header: name, Format: "plain", ReadBuf: 512,
+			Body: BodySpec{Kind: "literal", Lit: []byte("hello")}}}})
+	}
+	for _, comp := range []string{"gzip", "snappy"} {
+		known = append(known, Script{DefaultEnabled: true, Reqs: []Req{{Comp: comp, EmptyCE: true, ReadBuf: 4096,
+			Body: BodySpec{Kind: "mixed", Size: 5000, Seed: 1}}}})
+	}
+	for _, s := range known {
+		var f *vt.Finding
+		var nt bool
+		cProbe.HangGuard(90*time.Second, s, "hang/http-roundtrip", func() { nt, f = runInnerWith(cProbe, &s) })
+		cProbe.Eval(nt, scriptKey(&s))
+		if f != nil && !cProbe.Soft(f, s) {
+			cProbe.Violation(f, s)
+			t.Fatalf("%v", f)
+		}
+		n++
+	}
 	cProbe.Note("enumerated %d (algorithm, level, size) combinations against the default server configuration, including 20 MiB-1/20 MiB/20 MiB+1 bodies", n)
-	observeUnsupportedListedName()
-}
-
-// observeUnsupportedListedName: compression_algorithms may name a coding the
-// server has no decoder for (there is no validation).  Such a name is "listed"
-// but not "supported", so no clause of the property speaks about it; the
-// generator never produces it.  What happens is recorded as a note only.
-func observeUnsupportedListedName() {
-	cProbe.Exclude("compression_algorithms-names-a-coding-without-decoder")
-	s, _, err := buildServer(1000, false, []string{"", "br"})
-	if err != nil {
-		cProbe.Note("observation: compression_algorithms=[\"\",\"br\"] is refused by ToServer: %v", err)
-		return
-	}
-	id := nextID()
-	rec := &record{readBuf: 512, limit: 1000, keep: 64, done: make(chan struct{})}
-	s.recs.Store(id, rec)
-	req := httptest.NewRequest(http.MethodPost, "/v1/c16", bytes.NewReader([]byte("hello")))
-	req.Header.Set(hdrID, id)
-	req.Header.Set("Content-Encoding", "br")
-	rr := httptest.NewRecorder()
-	p, _ := vt.Recover(func() { s.srv.Handler.ServeHTTP(rr, req) })
-	rec.mu.Lock()
-	defer rec.mu.Unlock()
-	if p != nil {
-		cProbe.Note("observation (outside the property): compression_algorithms=[\"\",\"br\"] is accepted by ToServer; a request with Content-Encoding: br then panics in the middleware (%v) — net/http drops the connection instead of answering 4xx; handler ran=%d", p, rec.ran)
-	} else {
-		cProbe.Note("observation: compression_algorithms=[\"\",\"br\"], Content-Encoding: br → status %d, handler ran=%d", rr.Code, rec.ran)
-	}
 }
 
 // TestDescribe prints a replay script in readable form (debug aid).
